@@ -110,6 +110,36 @@ func computeVirtualControlFlow(fn *ssa.Function) *virtualControlFlowState {
 
 const MaxFunctionBlocks = 5000
 
+// OversizedPrefix marks the fingerprint of a function beyond MaxFunctionBlocks.
+const OversizedPrefix = "OVERSIZED:"
+
+// IsOversized reports whether fp is the fingerprint of a function that was too large to be
+// canonicalised.
+func IsOversized(fp string) bool { return strings.HasPrefix(fp, OversizedPrefix) }
+
+// oversizedFingerprint hashes a linear, NON-canonical rendering of the function. A constant
+// marker made every oversized function compare equal, so an edit hidden inside a huge function
+// was reported as "preserved". The rendering costs one pass over the instructions; it is not
+// invariant under renaming, but two different bodies no longer share a fingerprint.
+func oversizedFingerprint(fn *ssa.Function) string {
+	h := sha256.New()
+	for _, b := range fn.Blocks {
+		fmt.Fprintf(h, "b%d:", b.Index)
+		for _, succ := range b.Succs {
+			fmt.Fprintf(h, "%d,", succ.Index)
+		}
+		h.Write([]byte{'\n'})
+		for _, instr := range b.Instrs {
+			if v, ok := instr.(ssa.Value); ok {
+				fmt.Fprintf(h, "%s=", v.Name())
+			}
+			h.Write([]byte(instr.String()))
+			h.Write([]byte{'\n'})
+		}
+	}
+	return OversizedPrefix + hex.EncodeToString(h.Sum(nil))
+}
+
 func GenerateFingerprint(fn *ssa.Function, policy ir.LiteralPolicy, strictMode bool) FingerprintResult {
 	line := 0
 	filename := ""
@@ -122,7 +152,7 @@ func GenerateFingerprint(fn *ssa.Function, policy ir.LiteralPolicy, strictMode b
 	if len(fn.Blocks) > MaxFunctionBlocks {
 		return FingerprintResult{
 			FunctionName: fn.RelString(nil),
-			Fingerprint:  "OVERSIZED",
+			Fingerprint:  oversizedFingerprint(fn),
 			CanonicalIR:  fmt.Sprintf("; Skipped: Function too large (%d blocks > %d)", len(fn.Blocks), MaxFunctionBlocks),
 			Pos:          fn.Pos(),
 			Line:         line,
